@@ -291,6 +291,17 @@ func scheduleFiring(prev, cur M) string {
 			if !reflect.DeepEqual(p["paramData"], s["promiseParamData"]) {
 				return fmt.Sprintf("scheduled promise %q does not carry the configured parameter", pid)
 			}
+			if !reflect.DeepEqual(pairs(p["paramHeaders"]), pairs(s["promiseParamHeaders"])) {
+				return fmt.Sprintf("scheduled promise %q carries parameter headers %v, configured are %v", pid, p["paramHeaders"], s["promiseParamHeaders"])
+			}
+			wantTags := map[string]string{}
+			for k, v := range pairs(s["promiseTags"]) {
+				wantTags[k] = v
+			}
+			wantTags["resonate:schedule"], wantTags["resonate:invocation"] = id, "true"
+			if !reflect.DeepEqual(tags, wantTags) {
+				return fmt.Sprintf("scheduled promise %q carries tags %v, configured tags plus the schedule markers are %v", pid, tags, wantTags)
+			}
 		}
 	}
 	return ""
